@@ -181,6 +181,38 @@ func (s *sMsgSize) echo(_ any, ctx context.Context, dec func(any) error, _ grpc.
 	return &out, nil
 }
 
+// echoStream is echo over the streaming API; with metadata prep=1 the reply is sent as a *grpc.PreparedMsg.
+func (s *sMsgSize) echoStream(_ any, ss grpc.ServerStream) error {
+	var in []byte
+	if err := ss.RecvMsg(&in); err != nil {
+		return err
+	}
+	g := strconv.Itoa(len(in))
+	for _, b := range in {
+		if b != 0x41 {
+			g += ":corrupt"
+			break
+		}
+	}
+	s.mu.Lock()
+	s.srvGot = append(s.srvGot, g)
+	s.mu.Unlock()
+	md, _ := metadata.FromIncomingContext(ss.Context())
+	n := 0
+	if v := md.Get("resp-size"); len(v) == 1 {
+		n, _ = strconv.Atoi(v[0])
+	}
+	out := bytes.Repeat([]byte{0x5a}, n)
+	if v := md.Get("prep"); len(v) == 1 && v[0] == "1" {
+		pm := &grpc.PreparedMsg{}
+		if err := pm.Encode(ss, &out); err != nil {
+			return err
+		}
+		return ss.SendMsg(pm)
+	}
+	return ss.SendMsg(&out)
+}
+
 func (s *sMsgSize) Op(f []string) string {
 	switch f[0] {
 	case "cfg":
@@ -194,7 +226,8 @@ func (s *sMsgSize) Op(f []string) string {
 		}
 		s.srv = grpc.NewServer(sopts...)
 		s.srv.RegisterService(&grpc.ServiceDesc{ServiceName: "verif.Size", HandlerType: (*any)(nil),
-			Methods: []grpc.MethodDesc{{MethodName: "Echo", Handler: s.echo}}}, nil)
+			Methods: []grpc.MethodDesc{{MethodName: "Echo", Handler: s.echo}},
+			Streams: []grpc.StreamDesc{{StreamName: "EchoStream", ClientStreams: true, ServerStreams: true, Handler: s.echoStream}}}, nil)
 		s.lis = bufconn.Listen(1 << 20)
 		go s.srv.Serve(s.lis)
 		dopts := []grpc.DialOption{
@@ -249,10 +282,44 @@ func (s *sMsgSize) Op(f []string) string {
 		reqN, _ := strconv.Atoi(f[4])
 		req := bytes.Repeat([]byte{0x41}, reqN)
 		var resp []byte
-		ctx := metadata.AppendToOutgoingContext(context.Background(), "resp-size", f[5])
+		mode := "unary"
+		if len(f) > 6 {
+			mode = f[6]
+		}
+		prep := "0"
+		if mode == "prep" {
+			prep = "1"
+		}
+		ctx, cancel := context.WithCancel(metadata.AppendToOutgoingContext(context.Background(), "resp-size", f[5], "prep", prep))
+		defer cancel()
 		type res struct{ err error }
 		ch := make(chan res, 1)
-		go func() { ch <- res{s.cc.Invoke(ctx, "/verif.Size/Echo", &req, &resp, copts...)} }()
+		go func() {
+			if mode == "unary" {
+				ch <- res{s.cc.Invoke(ctx, "/verif.Size/Echo", &req, &resp, copts...)}
+				return
+			}
+			st, err := s.cc.NewStream(ctx, &grpc.StreamDesc{ClientStreams: true, ServerStreams: true}, "/verif.Size/EchoStream", copts...)
+			if err != nil {
+				ch <- res{err}
+				return
+			}
+			var m any = &req
+			if mode == "prep" {
+				pm := &grpc.PreparedMsg{}
+				if err := pm.Encode(st, &req); err != nil {
+					ch <- res{err}
+					return
+				}
+				m = pm
+			}
+			if err := st.SendMsg(m); err != nil {
+				ch <- res{err}
+				return
+			}
+			st.CloseSend()
+			ch <- res{st.RecvMsg(&resp)}
+		}()
 		settle()
 		var err error
 		select {
